@@ -170,6 +170,11 @@ pub fn run_case(out: &mut Out, case_no: usize, wc: &WordCfg, df: &DirFile, codes
         let only_again: Vec<_> = again.iter().filter(|d| !final_ds.contains(d)).map(|d| d.json()).collect();
         out.found("C16", "external-declarations-carry-over-between-calls", &df.src, json!({"meta": meta, "only_first_call": only_first, "only_after_other_declarations": only_again}));
         out.found("C02", "history-dependent:external-declarations", &df.src, json!({"meta": meta, "only_first_call": only_first, "only_after_other_declarations": only_again}));
+        // the first call's accounting is the one checked against the oracle below; a later call that accounts for the
+        // same directives differently accounts for some code twice or not at all
+        if only_first.iter().chain(only_again.iter()).any(|d| ["ban-unknown-rule-code", "ban-unused-ignore"].contains(&d["code"].as_str().unwrap_or(""))) {
+          out.found("C07", "accounting-differs-on-a-used-linter", &df.src, json!({"meta": meta, "only_first_call": only_first, "only_after_other_declarations": only_again}));
+        }
         break;
       }
     }
